@@ -1039,6 +1039,23 @@ def _run_rest(chk, fx):
         if f.get("body") and f["n"] == "write" and (f.get("cls") or "").endswith("EclOutput") and os.path.basename(f["file"]) in ("EclOutput.cpp", "EclOutput.hpp"):
             hdr_walk(stmt_list(f["body"]), None, f)
 
+    # ---- C07.realparse: text -> float without a range exception
+    r_rp = chk.rule("C07.realparse", "the formatted readers of opm/io/eclipse convert a REAL token with a function that cannot raise a range error for text the writer produces: std::stod followed by narrowing, or strtof / strtod (which return a value and do not throw).  std::stof throws std::out_of_range for every subnormal float (and for values beyond FLT_MAX), which `%e` output of a float array contains legally", floor=8)
+    rpx = chk.facts([u for u in core.library_units() if "opm/io/eclipse/" in u])
+    for f in rpx.fns:
+        if not f.get("body") or "/opm/io/eclipse/" not in f["file"]:
+            continue
+        for n in walk(f["body"]):
+            if n.get("k") != "Call":
+                continue
+            nm = (n.get("fn") or "").split("::")[-1]
+            if nm not in ("stof", "stod", "stold", "strtof", "strtod", "atof"):
+                continue
+            key = "%s@%d" % (f["q"].split("::")[-1], n["l"])
+            chk.instance(r_rp, key, sample=dict(function=f["q"], call=nm))
+            if nm == "stof":
+                chk.violation(r_rp, key, "%s converts text with std::stof: a subnormal REAL value (written legally by the formatted writer) raises std::out_of_range, so the array cannot be read back" % f["q"], f["file"], n["l"])
+
     from verif import narrow
     narrow.run_offwidth(chk, "C07")
 
